@@ -321,7 +321,8 @@ class Ctx:
         n_closed = out.count("Closed under the global context")
         axioms = set()
         for m in re.finditer(r"^([A-Za-z_][A-Za-z_0-9\.']*)\s*:", out, flags=re.M):
-            axioms.add(m.group(1))
+            if m.group(1) != "Axioms":          # (the header line of a Print Assumptions block)
+                axioms.add(m.group(1))
         bad = []
         for a in sorted(axioms):
             short = a.split(".")[-1]
